@@ -107,17 +107,21 @@ pub struct Case {
     progs: Vec<Vec<Step>>,
     evs: Vec<Ev>,
     pre: usize,
+    /// both descriptors carry SO_RCVTIMEO = SO_SNDTIMEO = 25 ms: a call that is not served in time
+    /// gives up with -1 and its coroutine moves on
+    timed: bool,
 }
 
 impl Case {
     fn to_json(&self) -> Value {
-        json!({"coroutines": self.progs.iter().map(|p| p.iter().map(|s| s.to_s()).collect::<Vec<_>>()).collect::<Vec<_>>(), "driver": self.evs.iter().map(|e| e.to_s()).collect::<Vec<_>>(), "before": PRE[self.pre]})
+        json!({"coroutines": self.progs.iter().map(|p| p.iter().map(|s| s.to_s()).collect::<Vec<_>>()).collect::<Vec<_>>(), "driver": self.evs.iter().map(|e| e.to_s()).collect::<Vec<_>>(), "before": PRE[self.pre], "socket_timeouts_25ms": self.timed})
     }
     fn from_json(v: &Value) -> Option<Case> {
         Some(Case {
             progs: v.get("coroutines")?.as_array()?.iter().map(|p| p.as_array()?.iter().map(|s| s.as_str().and_then(Step::from_s)).collect::<Option<Vec<_>>>()).collect::<Option<Vec<_>>>()?,
             evs: v.get("driver")?.as_array()?.iter().map(|e| e.as_str().and_then(Ev::from_s)).collect::<Option<Vec<_>>>()?,
             pre: v.get("before").and_then(Value::as_str).and_then(|b| PRE.iter().position(|x| *x == b)).unwrap_or(0),
+            timed: v.get("socket_timeouts_25ms").and_then(Value::as_bool).unwrap_or(false),
         })
     }
     fn digest(&self) -> u64 {
@@ -222,7 +226,7 @@ fn choice(site: &'static str, _n: usize) -> usize {
 }
 
 /// a fresh stream socket pair with `slot` at number `num` and its peer at number `pnum`
-unsafe fn open_pair(num: i32, pnum: i32) {
+unsafe fn open_pair(num: i32, pnum: i32, timed: bool) {
     let mut sv = [0; 2];
     assert_eq!(0, libc::socketpair(libc::AF_UNIX, libc::SOCK_STREAM, 0, sv.as_mut_ptr()));
     // both ends out of the way of the two target numbers first
@@ -239,6 +243,12 @@ unsafe fn open_pair(num: i32, pnum: i32) {
     assert_eq!(0, libc::setsockopt(num, libc::SOL_SOCKET, libc::SO_SNDBUF, std::ptr::from_ref(&small).cast(), 4));
     let fl = libc::fcntl(pnum, libc::F_GETFL);
     libc::fcntl(pnum, libc::F_SETFL, fl | libc::O_NONBLOCK);
+    if timed {
+        let tv = libc::timeval { tv_sec: 0, tv_usec: 25_000 };
+        for name in [libc::SO_RCVTIMEO, libc::SO_SNDTIMEO] {
+            assert_eq!(0, libc::setsockopt(num, libc::SOL_SOCKET, name, std::ptr::from_ref(&tv).cast(), size_of::<libc::timeval>() as u32));
+        }
+    }
 }
 
 fn fill(fd: i32) {
@@ -279,8 +289,8 @@ pub fn run_case(c: &Case) -> (Vec<Viol>, BTreeMap<String, u64>) {
     open_coroutine_core::verif::set_observe_hook(Some(observe));
     open_coroutine_core::verif::set_choice_hook(Some(choice));
     unsafe {
-        open_pair(fds[0], peers[0]);
-        open_pair(fds[1], peers[1]);
+        open_pair(fds[0], peers[0], c.timed);
+        open_pair(fds[1], peers[1], c.timed);
     }
     let n = c.progs.len();
     ST.with(|s| *s.borrow_mut() = St { fds, cur: vec![None; n], done: vec![Vec::new(); n], ..St::default() });
@@ -296,7 +306,7 @@ pub fn run_case(c: &Case) -> (Vec<Viol>, BTreeMap<String, u64>) {
         let _ = sc::close(None, fds[0]);
         unsafe {
             libc::close(peers[0]);
-            open_pair(fds[0], peers[0]);
+            open_pair(fds[0], peers[0], c.timed);
         }
     }
     for (j, prog) in c.progs.iter().enumerate() {
@@ -373,7 +383,7 @@ pub fn run_case(c: &Case) -> (Vec<Viol>, BTreeMap<String, u64>) {
                     let _ = sc::close(None, fds[s]);
                     unsafe {
                         libc::close(peers[s]);
-                        open_pair(fds[s], peers[s]);
+                        open_pair(fds[s], peers[s], c.timed);
                     }
                     ST.with(|st| st.borrow_mut().avail[s] = 0);
                     reopened[s] = true;
@@ -470,6 +480,10 @@ pub fn run_case(c: &Case) -> (Vec<Viol>, BTreeMap<String, u64>) {
     }
     for (j, d) in st.done.iter().enumerate() {
         for r in d {
+            let gave_up_in_time = c.timed && r.ret == -1 && r.end_t - r.start_t >= 25_000_000 && r.end_t - r.start_t <= 25_000_000 + 21_000_000;
+            if gave_up_in_time {
+                continue;
+            }
             if r.ret != 1 {
                 viols.push(Viol { clause: "call-returns-one-byte".into(), class: if r.step.write() { "write" } else { "read" }.into(), detail: format!("coroutine {j}: {} returned {}", r.step.to_s(), r.ret) });
             }
@@ -481,6 +495,7 @@ pub fn run_case(c: &Case) -> (Vec<Viol>, BTreeMap<String, u64>) {
     if n > 1 {
         w("cases_with_two_coroutines", 1);
     }
+    w("calls_that_gave_up_on_their_socket_timeout", st.done.iter().flatten().filter(|r| r.ret == -1).count() as u64);
     w("reopens_applied", applied_reopen);
     w("reopens_skipped_because_a_coroutine_was_blocked_on_the_slot", skipped);
     w("poll_failures_injected", u64::from(st.faults_consumed));
@@ -546,13 +561,18 @@ pub fn cases(tier: &str) -> Vec<Case> {
                 if matches!(evs.last(), Some(Ev::Reopen(_) | Ev::Fault | Ev::Idle)) {
                     continue;
                 }
+                let evs: Vec<Ev> = evs;
                 // non-initial start states for the single-coroutine programs
                 if progs.len() == 1 && evs.len() <= 2 {
                     for pre in 1..PRE.len() {
-                        v.push(Case { progs: progs.clone(), evs: evs.clone(), pre });
+                        v.push(Case { progs: progs.clone(), evs: evs.clone(), pre, timed: false });
                     }
                 }
-                v.push(Case { progs: progs.clone(), evs, pre: 0 });
+                // with socket timeouts only where time passes: a wait gives up, its coroutine moves on
+                if evs.contains(&Ev::Idle) {
+                    v.push(Case { progs: progs.clone(), evs: evs.clone(), pre: 0, timed: true });
+                }
+                v.push(Case { progs: progs.clone(), evs, pre: 0, timed: false });
             }
         }
     }
@@ -571,8 +591,8 @@ pub fn run(tier: &str, rep: &mut Report) {
     let (l0, l1, e) = bounds(tier);
     rep.bounds = json!({"descriptors": 2, "coroutines": "1..=2", "program_steps": ["read(A|B)", "write(A|B) into a full socket"], "steps_of_coroutine_0": l0, "steps_of_coroutine_1": l1,
         "driver_events": ["make-readable(slot)", "make-writable(slot)", "close+reopen(slot) through the hooked close", "next-poll-fails(EINTR)", "let-12ms-pass"], "driver_sequence_length": format!("0..={e}"),
-        "symmetry": "coroutine 0 starts on slot A", "start_states": PRE, "cases": cs.len()});
-    rep.require(&["woken_at_the_readiness_instant", "resumes_checked_against_own_descriptor", "cases_with_two_coroutines", "reopens_applied", "poll_failures_injected"]);
+        "symmetry": "coroutine 0 starts on slot A", "start_states": PRE, "socket_timeouts": "every case whose driver lets time pass also runs with SO_RCVTIMEO = SO_SNDTIMEO = 25 ms on both descriptors", "cases": cs.len()});
+    rep.require(&["woken_at_the_readiness_instant", "resumes_checked_against_own_descriptor", "cases_with_two_coroutines", "reopens_applied", "poll_failures_injected", "calls_that_gave_up_on_their_socket_timeout"]);
     for c in cs.iter().step_by((cs.len() / 4).max(1)).take(4) {
         rep.sample(c.to_json());
     }
